@@ -248,6 +248,12 @@ def rand_nonoverlapping(rng, n, span, allow_zero=True, touch_p=0.35, zero_p=0.2)
     return out
 
 
+def big_n(rng, n, p=0.004, sizes=(120, 257, 600)):
+    """n, or (rarely) a list length two orders of magnitude beyond the usual handful: a change that behaves
+    differently only beyond some size, or at a batch boundary, has to meet such a list"""
+    return rng.choice(sizes) if rng.random() < p else n
+
+
 def rand_intervals(rng, n, span, zero_p=0.2):
     """n arbitrary intervals on grid points in [0, span] (overlaps, nesting, duplicates likely)."""
     out = []
